@@ -27,7 +27,8 @@ RULE = ('case = (pool seed, OUT kind, selector per section). The pool seed expan
         'section with the selection model; label pixels / __label__ compared with the previous OUT. '
         'Non-trivial = >= 2 sections taken from different source files and OUT pre-existing; distinct by '
         '(pool seed, OUT kind, selectors).'
-        ' A quarter of the pools are "twin" pools: source a.p8 holds exactly the data OUT already has and its code (like m.lua\'s) is OUT\'s code with another quote style, so a build changes nothing but the spelling of the Lua section - which must still become the source\'s. d.p8.png and an existing .p8.png OUT are PNGs as image tools re-save them (interlaced, filtered, split IDAT, ancillary chunks).')
+        ' A quarter of the pools are "twin" pools: source a.p8 holds exactly the data OUT already has and its code (like m.lua\'s) is OUT\'s code with another quote style, so a build changes nothing but the spelling of the Lua section - which must still become the source\'s. d.p8.png and an existing .p8.png OUT are PNGs as image tools re-save them (interlaced, filtered, split IDAT, ancillary chunks).'
+        ' Error cases include --X "" (empty string) and --X naming a directory; a third of the single and drawn configurations run after an earlier build in the same process from same-named source files with other contents - one that is rejected, or one that succeeds into another output - after which the sources are replaced on disk; b.p8 may lack its final line ends.')
 ASSUMPTIONS = ['"section" = the cart memory region (gfx 0x0000-0x1fff incl. the shared half, map 0x2000-0x2fff, gff, '
                'music, sfx) resp. the Lua code text; the version number of OUT is not constrained',
                'empty defaults are taken from the documented empty cart (gfx/map/gff zero, music 41 42 43 44 per '
